@@ -294,6 +294,75 @@ fn gen_band_edge(r: &mut Rng, three: bool) -> (Vec<usize>, Vec<i64>) {
     }
 }
 
+/// Thin long grids: one axis has MORE THAN 1024 slabs (1 x N, 2 x N, N x 1, 1 x 1 x N with N in
+/// 1025..6000), so that the median search really narrows a wide window over several chunked
+/// passes before it ends -- a search path that only exists for wide windows (a sequential finish
+/// below some threshold, a different chunking) is only exercised here.  Weights whose half-weight
+/// mark is away from the first chunk and from the chunk boundaries: ramp, decaying, skewed,
+/// random, sparse, one heavy.  `force_ramp`: the first long input of a run is an i64 ramp on 1 x N.
+fn gen_long(r: &mut Rng, force_ramp: bool) -> Input {
+    let n_axis: usize = if force_ramp {
+        *r.pick(&[1025usize, 2049, 4097, 4099])
+    } else {
+        match r.below(8) {
+            0 => 1025,
+            1 => 2049,
+            2 => 4097,
+            3 => 4099,
+            4 => 5000,
+            5 => 6000,
+            _ => r.range(1025, 6000) as usize,
+        }
+    };
+    let shape = if force_ramp { 0 } else { r.below(5) };
+    let (dims, k): (Vec<usize>, usize) = match shape {
+        0 | 1 => (vec![1, n_axis], r.range(1, 3) as usize),
+        2 => (vec![2, n_axis.min(3000)], r.range(1, 3) as usize),
+        // the long axis is cut second: needs two iterations
+        3 => (vec![n_axis, 1], r.range(2, 3) as usize),
+        _ => (vec![1, 1, n_axis], r.range(2, 3) as usize),
+    };
+    let n: usize = dims.iter().product();
+    let len = *dims.iter().max().unwrap();
+    // position along the long axis of cell i (row-major: x fastest)
+    let along = |i: usize| -> usize {
+        if dims.len() == 2 && dims[0] == 2 {
+            i / 2
+        } else {
+            i % len.max(1)
+        }
+    };
+    let fam = if force_ramp { 0 } else { r.below(7) };
+    let heavy_at = len * 4 / 5;
+    let (name, z): (&str, Vec<i64>) = match fam {
+        0 => ("ramp_up", (0..n).map(|i| along(i) as i64 + 1).collect()),
+        1 => ("ramp_down", (0..n).map(|i| (len - along(i)) as i64).collect()),
+        2 => ("skewed", (0..n).map(|_| if r.chance(1, 20) { r.range(200, 2000) } else { r.range(0, 3) }).collect()),
+        3 => ("random", (0..n).map(|_| r.range(0, 100)).collect()),
+        4 => ("sparse", (0..n).map(|_| if r.chance(1, 16) { r.range(1, 50) } else { 0 }).collect()),
+        5 => ("decaying", (0..n).map(|i| 1_000_000 / (1 + along(i) as i64)).collect()),
+        _ => ("one_heavy", (0..n).map(|i| if along(i) == heavy_at { len as i64 } else { 1 }).collect()),
+    };
+    let wt = if force_ramp { 0 } else { r.below(4) };
+    let (tname, w) = match wt {
+        0 | 1 => ("i64", Weights::I64(z)),
+        2 => {
+            // exact dyadic f64: z * 2^-k
+            let k = *r.pick(&[0u32, 4, 10]);
+            let scale = 2f64.powi(-(k as i32));
+            let f: Vec<f64> = z.iter().map(|x| *x as f64 * scale).collect();
+            ("f64", Weights::F64 { f, z: z.iter().map(|x| *x as i128).collect(), k, exact: true })
+        }
+        _ => {
+            // arbitrary f64 fractions (checker only)
+            let f: Vec<f64> = z.iter().map(|x| *x as f64 * 0.1).collect();
+            let (zz, k) = decompose(&f);
+            ("f64arb", Weights::F64 { f, z: zz, k, exact: false })
+        }
+    };
+    Input { fam: format!("long_{}_{}", tname, name), dims, w, k }
+}
+
 fn gen_input(r: &mut Rng, tier: &str) -> Input {
     let big = tier == "thorough";
     let mut dims = gen_dims(r, big);
@@ -396,9 +465,18 @@ fn main() {
     let mut pending_twin: Option<Input> = None;
     let mut twin = false;
     let mut n_twins = 0usize;
+    // long thin grids: a few groups per quick run (in different shards), one group in 45 in the
+    // thorough tier; a group that is due while a twin is pending waits for the next fresh group
+    let mut long_due = 0usize;
+    let mut n_long = 0usize;
+    let mut n_long_cases = 0usize;
     for idx in 0..a.cases {
         let mut r = rng.fork();
         if idx % pools.len() == 0 || cur.is_none() {
+            let g = idx / pools.len();
+            if (a.tier != "thorough" && (g == 7 || g == 160)) || (a.tier == "thorough" && g % 45 == 7) {
+                long_due += 1;
+            }
             if let Some(t) = pending_twin.take() {
                 cur = Some(t);
                 twin = true;
@@ -412,6 +490,10 @@ fn main() {
                         w: Weights::I64(vec![1480445131096389888, 1, 1510353113542781918]),
                         k: 1,
                     }
+                } else if long_due > 0 {
+                    long_due -= 1;
+                    n_long += 1;
+                    gen_long(&mut r, n_long == 1)
                 } else {
                     gen_input(&mut r, &a.tier)
                 };
@@ -432,6 +514,9 @@ fn main() {
         }
         let res = run_impl(&inp, threads);
         by_pool[threads] += 1;
+        if inp.fam.starts_with("long_") {
+            n_long_cases += 1;
+        }
         let (coq_impl, json_impl) = match &res {
             Guarded::Done(p) => (
                 format!("(IOk {})", coq_nlist(p.iter().map(|x| *x as u128))),
@@ -512,8 +597,8 @@ fn main() {
         }
     }
     let mut extra = format!(
-        "\"hangs\":{},\"panics\":{},\"cases_i64\":{},\"cases_i64_untagged_twins\":{},\"cases_f64_exact_dyadic\":{},\"cases_f64_arbitrary_checker_only\":{}",
-        hangs, panics, n_i64, n_twins, n_f64_exact, n_f64_arb
+        "\"hangs\":{},\"panics\":{},\"cases_long_axis_over_1024\":{},\"cases_i64\":{},\"cases_i64_untagged_twins\":{},\"cases_f64_exact_dyadic\":{},\"cases_f64_arbitrary_checker_only\":{}",
+        hangs, panics, n_long_cases, n_i64, n_twins, n_f64_exact, n_f64_arb
     );
     for (t, n) in by_pool.iter().enumerate() {
         if *n > 0 {
